@@ -121,6 +121,8 @@ ATOMIC_RE = re.compile(
     r'(load|store|swap|fetch_add|fetch_sub|fetch_or|fetch_and|fetch_xor|fetch_max|fetch_min|'
     r'compare_exchange|compare_exchange_weak|compare_and_swap|fetch_update|get_mut|into_inner)$')
 
+# `From::from` of a type into itself (what `?` applies to the error): the value
+IDENTITY_FROM_RE = re.compile(r'^<T as (std|core)::convert::From<T>>::from$')
 TRANSPARENT_RE = re.compile(
     r'(ops::(deref::)?Deref(Mut)?>?::deref(_mut)?$|::as_ptr$|::as_mut_ptr$|::as_ref$|::as_mut$|'
     r'ptr::(mut_ptr|const_ptr)::<impl \*(mut|const) T>::(offset|add|sub|cast|cast_mut|cast_const|wrapping_add|wrapping_offset)$|'
@@ -400,6 +402,9 @@ class Graph:
             return name, 'item', False
         if name in F.xfns and not t.get('fn_local') and not PRED_RE.search(name):
             return name, 'std', False
+        # `expr?` on a Result / Option: Try::branch and FromResidual::from_residual of the std impls
+        if t.get('resolved') in F.xfns and not t.get('resolved_local') and not PRED_RE.search(t['resolved']) and t['resolved'] != name:
+            return t['resolved'], 'std', False
         return None, 'external', False
 
     def _do_call(self, inst, nid, depth, stack):
@@ -418,6 +423,10 @@ class Graph:
             inl = False
             self.not_inlined.append((nid, callee, 'filtered'))
         elif callee is not None and not inl:
+            if callee in stack and self._tail_recursion(inst, nid, callee):
+                # `return self.f(same arguments)` from (a helper of) f: the next round of a loop over f's body
+                info['how'] = 'tail-recursion'
+                return
             self.not_inlined.append((nid, callee, 'recursion' if callee in stack else 'depth'))
         if inl:
             body = self.facts.bodies[callee]
@@ -486,6 +495,13 @@ class Graph:
                             self.defs.setdefault((cinst, 2 + k), []).append(('hofarg', nid, k))
                 cinst, centry, crets = self._expand(c, iid, nid, depth + 1, stack, 'hof', binder)
                 info['closure_insts'].append(cinst)
+                # `(0..N).any(|_| ..)` with a literal, non-empty range: the callback runs at least once
+                # (and, being the body of the adaptor's loop, it can run again after it returned)
+                if not once and ai == 1 and re.search(r'Iterator::(any|all|for_each|try_for_each|find|position|find_map)$', name):
+                    n.succs = [centry] if self._nonempty_range(iid, t['args'][0]) else n.succs + [centry]
+                    for r in crets:
+                        self.nodes[r].succs = ([tgt] if tgt is not None else []) + [centry]
+                    continue
                 if once:
                     n.succs = [centry]
                     # result of dependently* is the closure's result
@@ -498,6 +514,72 @@ class Graph:
                 for r in crets:
                     if tgt is not None:
                         self.nodes[r].succs = [tgt]
+
+    def _nonempty_range(self, iid, op):
+        e = self.strip(self.ev_op(iid, op))
+        while e[0] in ('ref', 'deref'):
+            e = self.strip(e[1])
+        if e[0] == 'agg' and e[2].endswith('Range::Range') and len(e[4]) == 2:
+            a, b = self.strip(e[4][0]), self.strip(e[4][1])
+            try:
+                return a[0] == 'c' and b[0] == 'c' and a[1] is not None and b[1] is not None and int(b[1]) > int(a[1])
+            except (ValueError, TypeError):
+                return False
+        return False
+
+    def _tail_call(self, inst, nid):
+        """the call's result is the function's result: destination `_0`, and nothing but a return follows"""
+        t = self.nodes[nid].term
+        d = t['dest']
+        if d['l'] != 0 or d['p'] or t['t'] is None:
+            return False
+        bi, seen = t['t'], set()
+        blocks = inst.body['blocks']
+        while bi not in seen:
+            seen.add(bi)
+            b = blocks[bi]
+            if any(s_['k'] == 'assign' for s_ in b['stmts']):
+                return False
+            k = b['term']['k']
+            if k == 'ret':
+                return True
+            if k == 'goto':
+                bi = b['term']['t']
+                continue
+            if k == 'drop' and not b['term'].get('glue'):
+                bi = b['term']['t']
+                continue
+            return False
+        return False
+
+    def _tail_recursion(self, inst, nid, callee):
+        """a call back to a function that is being expanded, in tail position all the way up to that function and with
+        that function's own parameters as arguments: control continues at its entry (a retry loop written as recursion)"""
+        t = self.nodes[nid].term
+        cur, cn = inst, nid
+        while True:
+            if not self._tail_call(cur, cn):
+                return False
+            if cur.fn == callee:
+                break
+            if cur.parent is None or cur.call_node is None:
+                return False
+            cn = cur.call_node
+            cur = self.insts[cur.parent]
+        A = cur
+        ac = self.facts.bodies[callee]['arg_count']
+        if len(t['args']) != ac:
+            return False
+        def norm(e):
+            e = self.strip(e)
+            while e[0] == 'ref' and self.strip(e[1])[0] == 'deref':     # a reborrow `&*p` is p
+                e = self.strip(self.strip(e[1])[1])
+            return e
+        for i in range(ac):
+            if norm(self.ev_op(inst.id, t['args'][i])) != norm(self.ev_local(A.id, i + 1)):
+                return False
+        self.nodes[nid].succs = [A.entry]
+        return True
 
     def _def_dest(self, iid, dest, d):
         self._memo.clear()
@@ -751,6 +833,16 @@ class Graph:
                     return None
                 pl = opd['pl']
                 o = self._resolve_variant(ciid, pl['l'], list(pl['p']) + projs, fwd, depth + 1)
+                if o is None:
+                    return None
+                outs += o
+            elif d[0] == 'callres' and IDENTITY_FROM_RE.search(self.nodes[d[1]].term.get('resolved') or '') and \
+                    self.nodes[d[1]].term['args'] and self.nodes[d[1]].term['args'][0]['k'] in ('copy', 'move'):
+                # `From::from` of a type into itself (applied by `?` to the error value): the value itself
+                cn = self.nodes[d[1]]
+                pl = cn.term['args'][0]['pl']
+                self._fwd_calls.add(d[1]) if hasattr(self, '_fwd_calls') else None
+                o = self._resolve_variant(cn.inst, pl['l'], list(pl['p']) + projs, fwd, depth + 1)
                 if o is None:
                     return None
                 outs += o
@@ -1470,7 +1562,30 @@ class Graph:
             ck = rv['ck']
             return ('cast', ck, inner, rv['to']['s'])
         if k == 'bin':
-            return ('bin', rv['op'], self.ev_op(iid, rv['a'], at), self.ev_op(iid, rv['b'], at))
+            a_, b_ = self.ev_op(iid, rv['a'], at), self.ev_op(iid, rv['b'], at)
+            # masks built from literals (`1 << POS`, `A | B`, e.g. by a const fn) are the literal they evaluate to
+            if rv['op'] in ('Shl', 'Shr', 'BitOr', 'BitAnd', 'BitXor', 'ShlUnchecked', 'ShrUnchecked'):
+                sa, sb = self.strip(a_), self.strip(b_)
+                if sa[0] == 'c' and sb[0] == 'c' and sa[1] is not None and sb[1] is not None and len(sa) > 2 and sa[2] is None and sb[2] is None:
+                    try:
+                        x_, y_ = int(sa[1]), int(sb[1])
+                        op_ = rv['op'].replace('Unchecked', '')
+                        v_ = None
+                        if op_ == 'Shl' and 0 <= y_ < 64:
+                            v_ = (x_ << y_) & ((1 << 64) - 1)
+                        elif op_ == 'Shr' and 0 <= y_ < 64 and x_ >= 0:
+                            v_ = x_ >> y_
+                        elif op_ == 'BitOr' and x_ >= 0 and y_ >= 0:
+                            v_ = x_ | y_
+                        elif op_ == 'BitAnd' and x_ >= 0 and y_ >= 0:
+                            v_ = x_ & y_
+                        elif op_ == 'BitXor' and x_ >= 0 and y_ >= 0:
+                            v_ = x_ ^ y_
+                        if v_ is not None:
+                            return ('c', str(v_), None, sa[3] if len(sa) > 3 else None)
+                    except (ValueError, TypeError):
+                        pass
+            return ('bin', rv['op'], a_, b_)
         if k == 'un':
             return ('un', rv['op'], self.ev_op(iid, rv['a'], at))
         if k == 'discr':
@@ -1596,7 +1711,8 @@ class Graph:
                 continue
             if e[0] == 'call':
                 n = self.nodes[e[1]]
-                if n.call is not None and n.call['inlined'] is None and PTR_CAST_RE.search(n.call.get('resolved') or n.call['name'] or ''):
+                if n.call is not None and n.call['inlined'] is None and (PTR_CAST_RE.search(n.call.get('resolved') or n.call['name'] or '') or
+                                                                            IDENTITY_FROM_RE.search(n.call.get('resolved') or '')):
                     a = n.term.get('args') or []
                     if a:
                         e = self.ev_op(n.inst, a[0], at=(e[1], None))
